@@ -94,6 +94,8 @@ META_SETS = [
     (float('nan'), float('-inf')),
     (np.uint64(2 ** 63), np.array([[1.5, 2.5], [3.5, 4.5]])),
     ('rec\udcff.wav', {'path': ['x\ud800', 'ok']}),      # lone surrogates (os.fsdecode of undecodable names)
+    (np.array(7), np.array([True, False])),                # 0-d array, bool array
+    ([np.array([1, 2]), {'a': np.float32(0.5)}], {'m': np.array([[1, 0], [0, 1]], dtype='uint8'), 'z': np.array(2.5)}),
 ]
 KEYNAMES = [{'k1': 'k1', 'k2': 'k2'}, {'k1': 'fs', 'k2': 'clé ☃'}, {'k1': 'a b', 'k2': ''}]
 
@@ -198,6 +200,10 @@ class Skip(Exception):
     pass
 
 
+class ImplFailure(Exception):
+    """creating the start state (a creation call with valid arguments) failed in the implementation"""
+
+
 # ------------------------------------------------------------------ session
 class Session:
     """a real array directory + live handle, driven by spec labels"""
@@ -252,7 +258,10 @@ class Session:
         elif self.cfg.form == 'tuple' and arr.ndim >= 2:
             arr = np.ascontiguousarray(arr.T).T
         md = self.mdict(_asmap(st['refmeta']))
-        self.a = self.darr.asarray(self.path, arr, accessmode=st['mode'], metadata=md or None)
+        try:
+            self.a = self.darr.asarray(self.path, arr, accessmode=st['mode'], metadata=md or None)
+        except Exception as e:
+            raise ImplFailure('asarray(%s %s, metadata=%r) failed: %r' % (arr.dtype.str, arr.shape, md, e)) from None
         if st.get('mmode', st['mode']) != st['mode']:
             self.a.metadata.accessmode = st['mmode']
         self.ret = None
